@@ -22,6 +22,8 @@ CONSTANTS
     MaxPanics = 0
     FixF2 = TRUE
     FixF3 = TRUE
+    InitEnc = "proto"
+    MaxMigrations = 0
 VIEW view
 INVARIANTS
     TypeOK
@@ -36,4 +38,6 @@ INVARIANTS
     ModOnlyPanicking
     ModSkippedEverywhere
     ModProgress
+    EncUniform
+    SnapshotsReadable
 CHECK_DEADLOCK FALSE
